@@ -368,11 +368,11 @@ func (f *File) seekWithoutLocking(offset int64, whence int) (int64, error) {
 	case io.SeekEnd:
 		dst = f.info.Size() + offset
 	default:
-		return -1, config.ErrNotImplemented
+		return 0, config.ErrNotImplemented
 	}
 
 	if dst < 0 {
-		return -1, os.ErrInvalid
+		return 0, os.ErrInvalid
 	}
 
 	// The stream is positioned by the next read; seeking beyond the end is allowed
@@ -441,7 +441,7 @@ func (f *File) readWithoutLocking(p []byte) (n int, err error) {
 				return 0, io.EOF
 			}
 
-			return -1, err
+			return 0, err
 		}
 	}
 
@@ -454,7 +454,7 @@ func (f *File) readWithoutLocking(p []byte) (n int, err error) {
 	}
 
 	if err != nil {
-		return -1, err
+		return n, err
 	}
 
 	return n, nil
@@ -575,7 +575,7 @@ func (f *File) Read(p []byte) (n int, err error) {
 	})
 
 	if !f.flags.Read {
-		return -1, os.ErrPermission
+		return 0, os.ErrPermission
 	}
 
 	if len(p) <= 0 {
@@ -583,7 +583,7 @@ func (f *File) Read(p []byte) (n int, err error) {
 	}
 
 	if f.info.IsDir() {
-		return -1, config.ErrIsDirectory
+		return 0, config.ErrIsDirectory
 	}
 
 	f.ioLock.Lock()
@@ -600,7 +600,7 @@ func (f *File) ReadAt(p []byte, off int64) (n int, err error) {
 	})
 
 	if !f.flags.Read {
-		return -1, os.ErrPermission
+		return 0, os.ErrPermission
 	}
 
 	if len(p) <= 0 {
@@ -608,11 +608,11 @@ func (f *File) ReadAt(p []byte, off int64) (n int, err error) {
 	}
 
 	if f.info.IsDir() {
-		return -1, config.ErrIsDirectory
+		return 0, config.ErrIsDirectory
 	}
 
 	if off < 0 {
-		return -1, os.ErrInvalid
+		return 0, os.ErrInvalid
 	}
 
 	f.ioLock.Lock()
@@ -621,17 +621,17 @@ func (f *File) ReadAt(p []byte, off int64) (n int, err error) {
 	// A positioned read does not move the cursor
 	cursor, err := f.seekWithoutLocking(0, io.SeekCurrent)
 	if err != nil {
-		return -1, err
+		return 0, err
 	}
 
 	if _, err := f.seekWithoutLocking(off, io.SeekStart); err != nil {
-		return -1, err
+		return 0, err
 	}
 
 	n, err = f.readWithoutLocking(p)
 
 	if _, err := f.seekWithoutLocking(cursor, io.SeekStart); err != nil {
-		return -1, err
+		return 0, err
 	}
 
 	if err == nil && n < len(p) {
@@ -663,29 +663,29 @@ func (f *File) Write(p []byte) (n int, err error) {
 	})
 
 	if f.info.IsDir() {
-		return -1, config.ErrIsDirectory
+		return 0, config.ErrIsDirectory
 	}
 
 	if !f.flags.Write {
-		return -1, os.ErrPermission
+		return 0, os.ErrPermission
 	}
 
 	f.ioLock.Lock()
 	defer f.ioLock.Unlock()
 
 	if err := f.enterWriteMode(); err != nil {
-		return -1, err
+		return 0, err
 	}
 
 	if f.flags.Append {
 		if _, err := f.writeBuf.Seek(0, io.SeekEnd); err != nil {
-			return -1, err
+			return 0, err
 		}
 	}
 
 	n, err = f.writeBuf.Write(p)
 	if err != nil {
-		return -1, err
+		return 0, err
 	}
 
 	return n, nil
@@ -699,38 +699,38 @@ func (f *File) WriteAt(p []byte, off int64) (n int, err error) {
 	})
 
 	if f.info.IsDir() {
-		return -1, config.ErrIsDirectory
+		return 0, config.ErrIsDirectory
 	}
 
 	if !f.flags.Write {
-		return -1, os.ErrPermission
+		return 0, os.ErrPermission
 	}
 
 	f.ioLock.Lock()
 	defer f.ioLock.Unlock()
 
 	if off < 0 {
-		return -1, os.ErrInvalid
+		return 0, os.ErrInvalid
 	}
 
 	if err := f.enterWriteMode(); err != nil {
-		return -1, err
+		return 0, err
 	}
 
 	// A positioned write does not move the cursor
 	cursor, err := f.writeBuf.Seek(0, io.SeekCurrent)
 	if err != nil {
-		return -1, err
+		return 0, err
 	}
 
 	if _, err := f.writeBuf.Seek(off, io.SeekStart); err != nil {
-		return -1, err
+		return 0, err
 	}
 
 	n, err = f.writeBuf.Write(p)
 
 	if _, err := f.writeBuf.Seek(cursor, io.SeekStart); err != nil {
-		return -1, err
+		return 0, err
 	}
 
 	return n, err
@@ -743,23 +743,23 @@ func (f *File) WriteString(s string) (ret int, err error) {
 	})
 
 	if f.info.IsDir() {
-		return -1, config.ErrIsDirectory
+		return 0, config.ErrIsDirectory
 	}
 
 	if !f.flags.Write {
-		return -1, os.ErrPermission
+		return 0, os.ErrPermission
 	}
 
 	f.ioLock.Lock()
 	defer f.ioLock.Unlock()
 
 	if err := f.enterWriteMode(); err != nil {
-		return -1, err
+		return 0, err
 	}
 
 	if f.flags.Append {
 		if _, err := f.writeBuf.Seek(0, io.SeekEnd); err != nil {
-			return -1, err
+			return 0, err
 		}
 	}
 
